@@ -19,7 +19,7 @@ import random
 import sys
 import threading
 
-from . import canon, simsync
+from . import canon, directed, simsync
 from .common import H, HarnessError, digest, geometric
 
 FULL_FORM_LIMIT = 300_000
@@ -73,6 +73,8 @@ class Scheduler:
         self.gc_next = 0
         self.gc_count = 0
         self.hung = False
+        self.forced = None
+        self.directed_switches = 0
         self.blocked_waits = 0
         self.deadline_s = 300.0
         self.main_sem = threading.Semaphore(0)
@@ -91,6 +93,8 @@ class Scheduler:
             order = list(range(self.n))
             rng.shuffle(order)
             self.order = order
+        elif k == "directed":
+            self.policy.setdefault("mean", 100)
         elif k == "starve":
             self.victim = rng.randrange(self.n)
             tot = max(2, int(est_steps or 1000))
@@ -127,7 +131,7 @@ class Scheduler:
         rng = self.rng
         if k == "uniform":
             self._set(rng.choice(run), 1)
-        elif k == "geom":
+        elif k in ("geom", "directed"):
             self._set(rng.choice(run), geometric(rng, self.policy.get("mean", 10)))
         elif k == "pct":
             while self.change_points and self.change_points[0] <= self.total_steps:
@@ -161,6 +165,14 @@ class Scheduler:
 
     # -- called by actors -----------------------------------------------------
     def yield_point(self, a):
+        if self.forced is not None:
+            # "directed" policy: the running actor is at a line that writes shared
+            # state - hand over now, for the given quantum
+            q, self.forced = self.forced, None
+            others = [x for x in self._runnable() if x is not a]
+            if others and self.replay is None:
+                self._set(self.rng.choice(others), q)
+                self.directed_switches += 1
         if self.budget <= 0:
             self._decide(a)
         if self.cur is not a:
@@ -281,6 +293,7 @@ class Actor:
         self.last_site = "start"
         self.preempted_inside = 0
         self.thread_ident = None
+        self.after_shared_write = False
         self.held_locks = 0
         self.returned = []
         self.gen_asts = {}
@@ -369,6 +382,12 @@ class World:
             self.sched.gc_next = self.sched.gc_every
         self.sched.deadline_s = float(spec.get("deadline_s", 300.0))
         self.sched.switch_hook = self.on_switch if spec.get("probes", True) else None
+        self.directed_lines = None
+        if (spec.get("policy") or {}).get("kind") == "directed" and self.mode == "line" and spec.get("schedule") is None:
+            try:
+                self.directed_lines = directed.shared_write_lines(pyc) or None
+            except Exception:
+                self.directed_lines = None
         self.code_cache = {}
         self.by_thread = {}
         self.foreign_lexer_calls = 0
@@ -565,10 +584,21 @@ class World:
         sched = self.sched
         world = self
         yield_lines = self.mode == "line"
+        dlines = self.directed_lines
+        drng = self.sched.rng
 
         def local(frame, event, arg):
             if event == "line":
                 a.line_count += 1
+                if dlines is not None:
+                    # pre-empt right before a line that writes shared state, or right after it
+                    hit = a.after_shared_write
+                    a.after_shared_write = False
+                    if (frame.f_code, frame.f_lineno) in dlines:
+                        a.after_shared_write = True
+                        hit = True
+                    if hit and drng.random() < 0.5:
+                        sched.forced = drng.choice([6, 40, 250, INF])
                 f = a.fault
                 if f is not None and not a.fault_fired and f["kind"] == "line-abort":
                     due = a.abort_deferred
@@ -1388,6 +1418,8 @@ def execute(pyc, spec, keep_full=True):
         "cross_shared": cross,
         "hung": world.sched.hung,
         "blocked_waits": world.sched.blocked_waits,
+        "directed_switches": world.sched.directed_switches,
+        "shared_write_lines": len(world.directed_lines or ()),
         "gc_collections": world.gc_runs + world.sched.gc_count,
         "foreign_lexer_calls": world.foreign_lexer_calls,
         "preempted_inside": [a.preempted_inside for a in world.actors],
